@@ -120,6 +120,21 @@ func committedIn(w *sim.World, st pktsim.Step, kinds ...string) []sim.Event {
 	return out
 }
 
+// stateDiff is sim.Diff minus the one key that changes by block time alone: the rate-limiting
+// module's BeginBlocker rewrites "hour-epoch" in the first block after every full hour of
+// chain time, whatever transaction that block carries (DESIGN 2.3: time-driven begin-block
+// bookkeeping is outside "state unchanged"). No rate limits exist in these worlds.
+func stateDiff(a, b sim.Snap) []string {
+	var out []string
+	for _, d := range sim.Diff(a, b) {
+		if d == "ratelimit:hour-epoch" {
+			continue
+		}
+		out = append(out, d)
+	}
+	return out
+}
+
 // endKey identifies one channel end.
 type endKey struct {
 	Chain int
